@@ -41,12 +41,20 @@ def run(chk):
                            "FinalTimeEndOfRunEventHandler.end_of_run_time=" + end,
                            "FixedIntervalSamplingEventHandler.sampling_interval=0.4"]
             plans.append((n_atoms, sets))
+        # composite objects: two dipoles with the pair factors between point masses that need no thinning (harmonic, repulsive);
+        # the branches of composite objects travel through the pipes (pickling of Node trees, weights)
+        DIPOLES = (None, ["FinalTimeEndOfRunEventHandler.end_of_run_time=0.8", "FixedIntervalSamplingEventHandler.sampling_interval=0.2"])
+        plans.append(DIPOLES)
         jobs = []
         nsched = 10 if quick else 60
         for pi, (n_atoms, sets) in enumerate(plans):
             base = dict(config=runs.P + "coulomb_atoms/power_bounded.ini", seed=chk.seed + pi, sets=sets)
-            jobs.append(dict(base, name="single%d" % pi, extra=["--streams", "5"], plan=pi))
-            nh = (n_atoms - 1) + 4
+            pre = []
+            if n_atoms is None:
+                base = dict(config=runs.P + "dipoles/atom_factors.ini", seed=chk.seed + pi, sets=sets)
+                pre = ["--remove-tagger", "coulomb"]
+            jobs.append(dict(base, name="single%d" % pi, extra=pre + ["--streams", "5"], plan=pi))
+            nh = (n_atoms - 1) + 4 if n_atoms else 10
             for k in range(nsched):
                 cores = rnd.choice([2, 3, 3, 4, 16])
                 policy = rnd.choice(["native", "linger", "reverse", "shuffle", "one"])
@@ -57,7 +65,7 @@ def run(chk):
                                           rnd.choice([0, 0, 0, 0.04, 0.08])]
                 sched = dict(policy=policy, seed=rnd.randint(0, 10 ** 6), delays=delays)
                 jobs.append(dict(base, name="multi%d_%d" % (pi, k), validate=False, plan=pi, cores=cores, sched=sched,
-                                 extra=["--streams", "5", "--multi", str(cores), "--schedule", json.dumps(sched)]))
+                                 extra=pre + ["--streams", "5", "--multi", str(cores), "--schedule", json.dumps(sched)]))
         # systematic part: every script over {0,1,2}^D for the choice points of the first legs (3 cores, pre-computation on)
         import itertools
         depth = 3 if quick else 5
